@@ -457,6 +457,16 @@ fn salvage_item(m: &Message, storage: bool, v: &mut Vec<Violation>, st: &mut Sta
         return None;
     }
     st.inc("salvage_checks");
+    // reach probe: a float whose bit pattern a normalising writer would not reproduce
+    if let PayloadContent::Verbose(args) = &m.payload {
+        if args.iter().any(|a| match &a.value {
+            Value::F32(x) => x.is_nan() && x.to_bits() & 0x0040_0000 == 0,
+            Value::F64(x) => x.is_nan() && x.to_bits() & 0x0008_0000_0000_0000 == 0,
+            _ => false,
+        }) {
+            st.inc("salvage_signalling_nan");
+        }
+    }
     let kind = match &m.payload {
         PayloadContent::Verbose(_) => "verbose",
         PayloadContent::NonVerbose(..) => "nonverbose",
